@@ -2218,7 +2218,7 @@ def impl_assembly_rule(syn, prop, rule):
         if not ok:
             r.fail(prop, "impl-piece-missing %s" % var, "`#%s` is %s" % (var, "not part of the emitted impl" if var not in spliced else "not bound from %s (`%s`)" % (gen, init[:60])), fn["file"], e["line"])
     txt = " ".join(fl)
-    fixed = {"type OptionInnerType = Self ;": "OptionInnerType = Self", "fn ident ( ) -> String": "ident()", "fn visit_dependencies (": "visit_dependencies()"}
+    fixed = {"type OptionInnerType = Self ;": "OptionInnerType = Self", "fn ident ( ) ->": "ident()", "fn visit_dependencies (": "visit_dependencies()"}
     for frag, nm in fixed.items():
         ok = frag in txt
         r.inst(piece=nm, present=ok)
@@ -2263,4 +2263,28 @@ def inflection_table_rule(syn, prop, rule="C09.R4"):
     if not fallback_errs:
         r.fail(prop, "rename-all-unknown-accepted", "a value that is not one of the eight spellings is not rejected with an error", fn["file"], fn["line"])
     r.floor = 9
+    return r
+
+
+def template_hygiene_rule(syn, prop, rule="C16.R13"):
+    """a derive's output is compiled in the user's scope: `String`, `Option`, `Some` there are whatever the user defined"""
+    r = Result(rule, "generated code names the prelude's types and constructors by path (`std::string::String`, `std::option::Option::Some`), never by their bare name, so that an item called `String`, `Option`, `Some`, `Vec`, `Result`, `Ok`, `Err`, `None` or `Box` in the user's module cannot capture them")
+    NAMES = {"String", "Option", "Some", "None", "Vec", "Result", "Ok", "Err", "Box"}
+    bare = {}
+    n = 0
+    for fn in syn.fns_in("macros/src/"):
+        for e in templates(fn):
+            fl = [t for t in S.flat(e["tokens"]) if isinstance(t, str)]
+            n += 1
+            for i, t in enumerate(fl):
+                if t in NAMES and (i == 0 or fl[i - 1] != "::") and not (i > 0 and fl[i - 1] == "#"):
+                    bare.setdefault(t, []).append((fn["qual"], fn["file"], e["line"]))
+    r.inst(templates_examined=n, bare_prelude_names={k: len(v) for k, v in sorted(bare.items())})
+    if bare:
+        first = sorted(bare.items())[0][1][0]
+        r.fail(prop, "unqualified-prelude-names %s" % ",".join(sorted(bare)),
+               "generated code uses %s by bare name (%s): `#[derive(TS)] struct String { a: i32 }` (or `Option`, `Some`) makes every generated `fn name() -> String` refer to the user's type and the expansion does not compile (E0053)" %
+               (", ".join("%s x%d" % (k, len(v)) for k, v in sorted(bare.items())), ", ".join(sorted({q for v in bare.values() for q, _, _ in v})[:6])),
+               first[1], first[2])
+    r.floor = 1
     return r
